@@ -105,7 +105,7 @@ fn check_tree(tree: &Node, trailer: &[u8], rep: &mut Report, replay: Value) -> O
 }
 
 pub fn trees(ctx: &Ctx) -> Report {
-    let n = ctx.n(30_000, 3_000_000);
+    let n = ctx.n(150_000, 50_000_000);
     let mut rep = par_cases(ctx, "trees", n, ctx.secs(20, 400), |i, rng, rep| {
         let big = i % 500 == 499 && !ctx.tiny;
         let depth = 1 + rng.usize(if ctx.tiny { 3 } else { 6 });
@@ -279,7 +279,7 @@ pub fn integers(ctx: &Ctx) -> Report {
         rep.case(Some(0xb001 + v as u64));
     }
     // random 64-bit values with random bit widths
-    let n = ctx.n(200_000, 5_000_000);
+    let n = ctx.n(2_000_000, 500_000_000);
     let r = par_cases(ctx, "integers", n, ctx.secs(10, 120), |_i, rng, rep| {
         let bits = 1 + rng.below(64) as u32;
         let mut v = rng.next();
@@ -300,7 +300,7 @@ pub fn integers(ctx: &Ctx) -> Report {
 
 /// Valid definite-length BER with non-minimal length octets must parse to the reference tree.
 pub fn nonminimal(ctx: &Ctx) -> Report {
-    let n = ctx.n(30_000, 3_000_000);
+    let n = ctx.n(150_000, 50_000_000);
     par_cases(ctx, "nonminimal", n, ctx.secs(15, 300), |i, rng, rep| {
         let depth = 1 + rng.usize(if ctx.tiny { 3 } else { 5 });
         let tree = gen_tree(rng, depth, false);
